@@ -2,6 +2,7 @@ SPECIFICATION Spec
 CONSTANTS
   NrSet = {5,6,7,8,9,10,12}
   NtSet = {4,6,8,10,12,16,20,24}
-  Ops = {"residualGive", "smootherTake", "xsmootherTake", "residualTake"}
+  Ops = {"residualGive", "smootherTake", "xsmootherTake", "residualTake", "smootherGive"}
   EmitTables = FALSE
+  FIXED = {"F19"}
 INVARIANTS EpochDisjoint AllRadialOnce AllCirclesOnce
